@@ -9,6 +9,9 @@ steps.  The implicit / constrained integrators are in `Props/C02Implicit.lean`.
 import MiciVerif.Model.Integrators
 import MiciVerif.Lemmas.IntegratorsCoeffs
 import MiciVerif.Lemmas.IntegratorsFlows
+import Mathlib.Algebra.Field.Rat
+import Mathlib.Tactic.NormNum
+import Mathlib.Tactic.Positivity
 
 namespace MiciVerif.C02
 open MiciVerif.Integrators
@@ -16,13 +19,6 @@ open MiciVerif.Integrators
 variable {K : Type*} [Field K]
 
 /-! ### Coefficients -/
-
-private theorem deriveCoeffs_eq (free : List K) :
-    deriveCoeffs free =
-      (free ++ [1 / 2 - (slice2 (free.length % 2) free).sum]) ++
-        [1 - 2 * (slice2 ((free.length + 1) % 2) free).sum] ++
-        (free ++ [1 / 2 - (slice2 (free.length % 2) free).sum]).reverse := by
-  simp [deriveCoeffs, List.dropLast_concat]
 
 /-- `len(self.coefficients) == 2 n + 3` for `n` free coefficients. -/
 theorem deriveCoeffs_length (free : List K) : (deriveCoeffs free).length = 2 * free.length + 3 := by
@@ -40,31 +36,6 @@ theorem deriveCoeffs_palindrome (free : List K) : (deriveCoeffs free).reverse = 
 /-- The flow list `[A, B] * (n + 1) + [A]` is palindromic. -/
 theorem flows_palindrome {F : Type*} (a b : F) (n : Nat) :
     (flowsList a b n).reverse = flowsList a b n := flowsList_reverse a b n
-
-private theorem slice2_sum_of_even (free : List K) (h : free.length % 2 = 0) :
-    (slice2 (free.length % 2) free).sum = sumAt true free ∧
-      (slice2 ((free.length + 1) % 2) free).sum = sumAt false free ∧ evenLen free = true := by
-  have h1 : (free.length + 1) % 2 = 1 := by omega
-  rw [h, h1, slice2_zero_sum, slice2_one_sum]
-  simp [evenLen, h]
-
-private theorem slice2_sum_of_odd (free : List K) (h : free.length % 2 = 1) :
-    (slice2 (free.length % 2) free).sum = sumAt false free ∧
-      (slice2 ((free.length + 1) % 2) free).sum = sumAt true free ∧ evenLen free = false := by
-  have h1 : (free.length + 1) % 2 = 0 := by omega
-  rw [h, h1, slice2_zero_sum, slice2_one_sum]
-  simp [evenLen, h]
-
-private theorem sumAt_deriveCoeffs (b : Bool) (h2 : (2 : K) ≠ 0) (free : List K) :
-    sumAt b (deriveCoeffs free) = 1 := by
-  rw [deriveCoeffs_eq, sumAt_palindrome, sumAt_append, evenLen_append, sumAt_singleton]
-  rcases Nat.mod_two_eq_zero_or_one free.length with h | h
-  · obtain ⟨e1, e2, e3⟩ := slice2_sum_of_even free h
-    rw [e1, e2, e3]
-    cases b <;> simp [evenLen] <;> field_simp <;> ring
-  · obtain ⟨e1, e2, e3⟩ := slice2_sum_of_odd free h
-    rw [e1, e2, e3]
-    cases b <;> simp [evenLen] <;> field_simp <;> ring
 
 /-- The coefficients paired with flow A (`self.flows[0::2]`) sum to one — for EVERY list of free
 coefficients.  (`2 ≠ 0`: the code's `0.5` is `1/2`.) -/
@@ -106,7 +77,7 @@ theorem symComp_reverse {X : Type*} (coeffs : List K) (flows : List (K → X →
     symComp coeffs flows (-ε) (symComp coeffs flows ε x) = x := by
   unfold symComp
   have hz : (coeffs.zip flows).reverse = coeffs.zip flows := by
-    rw [List.reverse_zip hl, hc, hf]
+    rw [reverse_zip_of_length_eq _ _ hl, hc, hf]
   have := fold_reverse (coeffs.zip flows)
     (fun p hp => hinv p.2 (List.of_mem_zip hp).2) ε x
   rwa [hz] at this
@@ -159,7 +130,7 @@ theorem steps_reverse {X : Type*} (stepT : K → X → X)
   | zero => rfl
   | succ n ih =>
     unfold steps at *
-    rw [Function.iterate_succ_apply, Function.iterate_succ_apply', ih, step_flip_step stepT hrev]
+    rw [Function.iterate_succ_apply, Function.iterate_succ_apply', step_flip_step stepT hrev, ih]
 
 /-- … in particular position and momentum are recovered. -/
 theorem steps_reverse_x {X : Type*} (stepT : K → X → X)
@@ -215,7 +186,7 @@ end Instances
 /-- A rational rotation table satisfying all hypotheses of `harmonic_neg`:
 `trig t = ((1-t²)/(1+t²), 2t/(1+t²))` (the tangent half-angle parametrisation). -/
 example : ∃ trig : ℚ → Trig 1 ℚ, (∀ t, (trig t).IsUnit) ∧ (∀ t, trig (-t) = (trig t).inv) ∧
-    (trig 1).s ≠ 0 := by
+    (trig 1).s 0 ≠ 0 := by
   refine ⟨fun t => ⟨fun _ => (1 - t ^ 2) / (1 + t ^ 2), fun _ => 2 * t / (1 + t ^ 2)⟩, ?_, ?_, ?_⟩
   · intro t i
     have : (1 + t ^ 2) ≠ 0 := by positivity
@@ -223,14 +194,14 @@ example : ∃ trig : ℚ → Trig 1 ℚ, (∀ t, (trig t).IsUnit) ∧ (∀ t, tr
     field_simp
     ring
   · intro t
-    apply Trig.ext' <;> funext i <;> simp [Trig.inv] <;> ring
+    apply Trig.ext' <;> funext i <;> simp [Trig.inv] ; ring
   · norm_num
 
 /-- Leapfrog on `g q = q³` with unit metric really moves the point (the theorems are not about
 identity maps) and returns exactly. -/
 example :
-    let stepT := (mkSymComp (kick (fun q : ℚ => q ^ 3)) (drift (fun p : ℚ => p)) [] true).stepT
-    stepT (1 / 2) (1, 1) = (45 / 32, 21655 / 65536) ∧ stepT (-(1 / 2)) (stepT (1 / 2) (1, 1)) = (1, 1) := by
+    let stepT := (mkSymComp (K := ℚ) (kick (fun q : ℚ => q ^ 3)) (drift (fun p : ℚ => p)) [] true).stepT
+    stepT (1 / 2) (1, 1) = (11 / 8, 205 / 2048) ∧ stepT (-(1 / 2)) (stepT (1 / 2) (1, 1)) = (1, 1) := by
   norm_num [SymCompIntegrator.stepT, mkSymComp, symComp, deriveCoeffs, flowsList, slice2, stride2,
     kick, drift]
 
